@@ -43,6 +43,7 @@ verus! {
 //@item src/debugger/breakpoint.rs struct Breakpoint derive=Clone,Copy
 //@item src/air.rs struct Air derive=
 //@include bp_spec.rs
+//@include lines_spec.rs
 //@include air_spec.rs
 
 //@include enc_spec.rs
